@@ -22,11 +22,20 @@
 (*                                                                                         *)
 (* Closed store: a Commit tests `closed` when it starts (first Lin step); writes of a Commit *)
 (* that take effect after a concurrent Close are unobservable (KVStore forgets the contents). *)
+(*                                                                                         *)
+(* The flushkv wrapper ("flushes changes immediately") is the one place where cfg matters:   *)
+(* its mutating calls are, by its documentation, the mutation FOLLOWED BY a Flush of the     *)
+(* store, i.e. two calls of the sequential contract; the wrapper returns the first error.    *)
+(* Sequentially that is the same as the bare call (C04: wrappers are transparent).  With a   *)
+(* concurrent Close the two steps can fall on both sides of it: the mutation takes effect,   *)
+(* the store is closed, the Flush - and so the call - reports ErrStoreClosed.  LinFlush is    *)
+(* that second step.                                                                        *)
 EXTENDS KVStore
 
 CONSTANTS Threads
 
-VARIABLES pc,     \* thread -> "idle" | "invoked" | "writing" (Commit, some writes done) | "lin"
+VARIABLES pc,     \* thread -> "idle" | "invoked" | "writing" (Commit, some writes done) |
+                  \*           "flushing" (flushkv: mutation done, Flush pending) | "lin"
           call,   \* thread -> stimulus of the pending call
           res,    \* thread -> result produced at the linearization point
           todo    \* thread -> writes of a pending Commit that have not taken effect yet
@@ -47,6 +56,13 @@ ThreadsReset == /\ pc'   = [t \in Threads |-> "idle"]
                 /\ todo' = [t \in Threads |-> {}]
 ConcInit == Init /\ ThreadsInit
 
+MutOps     == {"Set", "Delete", "DeletePrefix", "Clear", "Commit"}
+FlushWraps == {"flush"}
+(* the call of t has taken effect with result r *)
+Finish(t, r) == IF cfg.wrap \in FlushWraps /\ call[t].op \in MutOps /\ r = Err("ok")
+                  THEN pc' = [pc EXCEPT ![t] = "flushing"] /\ UNCHANGED res
+                  ELSE pc' = [pc EXCEPT ![t] = "lin"] /\ res' = [res EXCEPT ![t] = r]
+
 (* the individual writes of a batch: the last Set/Delete call per key *)
 LastWrites(ops) == {ops[i] : i \in {j \in 1..Len(ops) : \A m \in (j + 1)..Len(ops) : ops[m].k # ops[j].k}}
 
@@ -61,11 +77,10 @@ Invoke(t, s) ==
 LinCall(t) ==
   /\ pc[t] = "invoked" /\ call[t].op # "Commit"
   /\ Do(call[t])
-  /\ res' = [res EXCEPT ![t] = ev'.res]
-  /\ pc'  = [pc EXCEPT ![t] = "lin"]
+  /\ Finish(t, ev'.res)
   /\ UNCHANGED <<call, todo>>
 
-CommitDone(t, r) == res' = [res EXCEPT ![t] = r] /\ pc' = [pc EXCEPT ![t] = "lin"]
+CommitDone(t, r) == Finish(t, r)
 
 LinCommit(t) ==
   /\ call[t].op = "Commit"
@@ -85,7 +100,15 @@ LinCommit(t) ==
                                  ELSE pc' = [pc EXCEPT ![t] = "writing"] /\ UNCHANGED res
         /\ UNCHANGED <<cfg, closed, batches, ev, call>>
 
-Lin(t) == LinCall(t) \/ LinCommit(t)
+(* flushkv: the Flush that follows a mutation *)
+LinFlush(t) ==
+  /\ pc[t] = "flushing"
+  /\ Do([op |-> "Flush", v |-> call[t].v])
+  /\ res' = [res EXCEPT ![t] = ev'.res]
+  /\ pc'  = [pc EXCEPT ![t] = "lin"]
+  /\ UNCHANGED <<call, todo>>
+
+Lin(t) == LinCall(t) \/ LinCommit(t) \/ LinFlush(t)
 
 Return(t) ==
   /\ pc[t] = "lin"
@@ -94,9 +117,10 @@ Return(t) ==
   /\ res'  = [res EXCEPT ![t] = NoRes]
   /\ UNCHANGED <<vars, todo>>
 
-ConcTypeOK == /\ \A t \in Threads : pc[t] \in {"idle", "invoked", "writing", "lin"}
+ConcTypeOK == /\ \A t \in Threads : pc[t] \in {"idle", "invoked", "writing", "flushing", "lin"}
               /\ \A t \in Threads : pc[t] = "idle" <=> call[t] = NoCall
               /\ \A t \in Threads : pc[t] = "lin" <=> res[t] # NoRes
               /\ \A t \in Threads : todo[t] # {} => (pc[t] \in {"invoked", "writing"} /\ call[t].op = "Commit")
               /\ \A t \in Threads : pc[t] = "writing" => todo[t] # {}
+              /\ \A t \in Threads : pc[t] = "flushing" => (cfg.wrap \in FlushWraps /\ call[t].op \in MutOps)
 =======================================================================
